@@ -28,6 +28,9 @@ Chk(name, line, val) == IF Diag THEN (IF val THEN TRUE ELSE PrintT(<<"FAILED", n
 FInit == grid = NoGrid /\ graphs = Empty /\ memo = Empty
 
 Ctx(G) == [n |-> grid.n, nb |-> grid.nb, mask |-> G.mask, bl |-> G.bl]
+\* a snapshot holds the state of the last update: mask and base levels as they were THEN (umask, ubl),
+\* whatever set_mask / set_base_levels did to the graph since
+CtxOf(G, snap) == IF snap = "" THEN Ctx(G) ELSE [n |-> grid.n, nb |-> grid.nb, mask |-> G.umask, bl |-> G.ubl]
 
 SetGrid(d) ==
   /\ grid' = [t |-> "grid", d |-> d, n |-> Size(d), nb |-> NeighTable(d), st |-> StatusArray(d)]
@@ -55,6 +58,7 @@ NewGraph(g, ops, o, line) ==
                            /\ Chk("C20.SnapshotKeys", line, o.gkeys = GraphKeys(ops) /\ o.ekeys = ElevKeys(ops))
           /\ Has("C17") => Chk("C17.DefaultBaseLevels", line, RangeS(o.bl) = DefaultBaseLevels(grid.d))
           /\ graphs' = (g :> [ops |-> ops, mask |-> [i \in 1..grid.n |-> 0], bl |-> RangeS(o.bl),
+                              umask |-> [i \in 1..grid.n |-> 0], ubl |-> RangeS(o.bl),
                               zin |-> <<>>, key |-> <<>>, cur |-> <<>>, snaps |-> Empty]) @@ graphs
   /\ UNCHANGED <<grid, memo>>
 
@@ -154,7 +158,8 @@ UpdateRoutes(g, r, line) ==
         /\ (Has("C09") \/ Has("C10")) =>
               (key \in DOMAIN memo => Chk("C09.SameInputsSameState", line, SameObs(memo[key], obs)))
         /\ memo' = IF key \in DOMAIN memo THEN memo ELSE (key :> obs) @@ memo
-        /\ graphs' = [graphs EXCEPT ![g].zin = r.zin, ![g].key = key, ![g].cur = r, ![g].snaps = Empty]
+        /\ graphs' = [graphs EXCEPT ![g].zin = r.zin, ![g].key = key, ![g].cur = r, ![g].snaps = Empty,
+                                    ![g].umask = G.mask, ![g].ubl = G.bl]
   /\ UNCHANGED grid
 
 -----------------------------------------------------------------------------
@@ -167,13 +172,13 @@ PrefixOps(ops, i) == LET p == SubSeq(ops, 1, i - 1) IN
                      IF \E j \in DOMAIN p : GraphUpdated(p[j]) THEN p ELSE Append(p, [k |-> "single"])
 \* results computed on a snapshot are those of the prefix graph (C16): same memo entry
 ResultKeyGraph(G, snap) == IF snap = "" THEN G.key
-                           ELSE KeyOf(PrefixOps(G.ops, SnapPos(G.ops, snap, TRUE)), G.zin, G.mask, G.bl)
+                           ELSE KeyOf(PrefixOps(G.ops, SnapPos(G.ops, snap, TRUE)), G.zin, G.umask, G.ubl)
 MemoOn(snap) == Has("C09") \/ Has("C10") \/ (Has("C16") /\ snap # "")
 
 Accumulate(g, a, line) ==
   /\ g \in DOMAIN graphs /\ HasState(graphs[g], a.snap)
   /\ LET G == graphs[g]
-         x == Ctx(G)
+         x == CtxOf(G, a.snap)
          r == StateOf(G, a.snap)
          key == [k |-> "acc", g |-> ResultKeyGraph(G, a.snap), src |-> a.src]
      IN /\ Has("C03") => /\ Chk("C03.OverloadsAgree", line, AccOverloadsAgree(a))
@@ -191,7 +196,7 @@ Accumulate(g, a, line) ==
 Basins(g, b, line) ==
   /\ g \in DOMAIN graphs /\ HasState(graphs[g], b.snap)
   /\ LET G == graphs[g]
-         x == Ctx(G)
+         x == CtxOf(G, b.snap)
          r == StateOf(G, b.snap)
          key == [k |-> "basins", g |-> ResultKeyGraph(G, b.snap)]
      IN /\ (Has("C19") /\ r.width = 1) => Chk("C19.Labels", line, C19(x, r, b))
@@ -209,9 +214,9 @@ Basins(g, b, line) ==
 SnapGraph(g, nm, s, line) ==
   /\ g \in DOMAIN graphs /\ graphs[g].cur # <<>>
   /\ LET G == graphs[g]
-         x == Ctx(G)
+         x == CtxOf(G, nm)
          i == SnapPos(G.ops, nm, TRUE)
-         pkey == KeyOf(PrefixOps(G.ops, i), G.zin, G.mask, G.bl)
+         pkey == KeyOf(PrefixOps(G.ops, i), G.zin, G.umask, G.ubl)
      IN /\ Has("C16") =>
             /\ Chk("MACHINERY.PrefixGraphInHistory", line, pkey \in DOMAIN memo)
             /\ Chk("TypeOK.TablesInBounds", line, WellFormedGraph(x, s))
@@ -232,7 +237,7 @@ SnapElev(g, nm, z, line) ==
          i == SnapPos(G.ops, nm, FALSE)
          before == \E j \in 1..(i - 1) : ElevUpdated(G.ops[j])
          after == \E j \in (i + 1)..Len(G.ops) : ElevUpdated(G.ops[j])
-         pkey == KeyOf(PrefixOps(G.ops, i), G.zin, G.mask, G.bl)
+         pkey == KeyOf(PrefixOps(G.ops, i), G.zin, G.umask, G.ubl)
      IN Has("C16") =>
           IF ~before THEN Chk("C16.ElevationIsInput", line, z = G.zin)
           ELSE IF ~after THEN Chk("C16.ElevationIsFinal", line, z = G.cur.zout)
@@ -243,7 +248,7 @@ SnapElev(g, nm, z, line) ==
 KernelApply(g, k, line) ==
   /\ g \in DOMAIN graphs /\ HasState(graphs[g], k.snap)
   /\ LET G == graphs[g]
-         x == Ctx(G)
+         x == CtxOf(G, k.snap)
          r == StateOf(G, k.snap)
          key == [k |-> "kernel", g |-> ResultKeyGraph(G, k.snap), dir |-> k.dir, init |-> k.init]
          refused == k.thr > 1 /\ k.dir = "depth"
